@@ -12,6 +12,7 @@ import NemoVerif.Lemmas.BindHeap
 import NemoVerif.Lemmas.BindHeapEntries
 import NemoVerif.Lemmas.BindSurplus
 import NemoVerif.Lemmas.BindProgress
+import NemoVerif.Lemmas.BindActivate
 namespace NemoVerif.C08
 open NemoVerif NemoVerif.Bind
 
@@ -123,6 +124,257 @@ theorem surplus_positional_witness :
   refine ⟨⟨_, rfl, ?_⟩, ⟨_, rfl, ?_⟩⟩ <;>
     simp [startFlow, Bind.set, lookup, bindNamed, bindPos, bindRet, startLoop, keys, has, Except.isOk, Except.toBool,
       argKey, reservedNames, paramOfKey]
+
+/-! ### `activate`: which running activation may serve a call (`_get_reference_activated_flow_instance`) -/
+
+/-- **An activation is reused iff all parameter values agree** (every signature, every pair of calls).
+    `ev0` (well-formed, `k0` positionals) created the running instance `f0`; `ev` (`k` contiguous
+    positionals, no parameter given twice) is a later `activate` call of the same flow.  The comparison
+    loop of `_get_reference_activated_flow_instance` succeeds, and it says "same parameters" exactly
+    when, for EVERY parameter, the value the statement gives the first call (`specVal ev0 ..`:
+    positional | named | declared default | None) is Python-equal to the value it gives the second —
+    and the second call does not omit a parameter that has no default (the code as it is never serves
+    such a call by a running activation: it starts another instance, which is allowed).
+    In particular (→): a call is attached to a running activation only if that activation runs with
+    the call's own parameter values; an omitted parameter counts with its DECLARED DEFAULT, never with
+    whatever the running instance holds. -/
+theorem activation_reuse_iff_same_parameters (fid : String) (params rets : List Param)
+    (ev0 : Ctx) (k0 : Nat) (h0 : WellFormed params rets ev0 k0) (ev : Ctx) (k : Nat) (h : CallShape params ev k) :
+    ∃ f0 b, createFlowInstance fid params rets ev0 = .ok f0 ∧ sameParams ev f0.arguments params 0 = .ok b ∧
+      (b = true ↔ ∀ i (hi : i < params.length),
+          pyEq (specVal ev0 k0 i params[i]) (specVal ev k i params[i]) = true ∧
+          (Omitted ev k i params[i] → params[i].dflt.isSome = true)) := by
+  obtain ⟨f0, f, h1, h2, _, h4⟩ := bind_spec_core fid params rets ev0 k0 h0
+  have ha : f.arguments = f0.arguments := startFlow_arguments ev0 f0 f h2
+  obtain ⟨b, hb, hiff⟩ := sameParams_spec ev f0.arguments k params 0
+    (fun i => specVal ev0 k0 i ((params[i]?).getD ⟨"", none⟩))
+    (fun i hi => by rw [← ha, h4 i hi]; simp [hi])
+    (fun i hi hik => by
+      rw [Nat.zero_add] at hik ⊢
+      exact ⟨h.pos i hik, h.noclash i hi hik⟩)
+    h.nopos
+  refine ⟨f0, b, h1, hb, ?_⟩
+  rw [hiff]
+  constructor
+  · intro hh i hi
+    have := hh i hi
+    simpa [Agrees, hi] using this
+  · intro hh i hi
+    have := hh i hi
+    simpa [Agrees, hi] using this
+
+/-- non-vacuity: `flow f $a $b=2`; the activation was created by `activate f(1)`; the later call
+    `activate f(1, b=2)` has the shape the theorem asks for (`k = 1`, `b` named) -/
+example : CallShape [⟨"a", none⟩, ⟨"b", some (.lit (.int 2))⟩] [(.pos 0, .int 1), (.name "b", .int 2)] 1 := by
+  refine ⟨by decide, ?_, ?_, ?_⟩
+  · intro i hi; have : i = 0 := by omega
+    subst this; simp [lookup]
+  · intro i hi
+    have : (Key.pos 0 = Key.pos i) = False := by
+      simp only [Key.pos.injEq, eq_iff_iff, iff_false]; omega
+    simp [lookup, this]
+  · intro i hi hik; have : i = 0 := by omega
+    subst this; simp [lookup, argKey, reservedNames]
+
+/-- **The seeded blind spot, as a kernel-checked fact** (finite fact, by evaluation):
+    `flow watcher $tag="default" $level=1`; a running activation created by
+    `activate watcher("custom", 7)` does NOT have the parameters of a later `activate watcher`
+    (both omitted parameters count with their declared defaults), while an activation created by
+    `activate watcher` does — also for `activate watcher(level=1)` and `activate watcher("default")`. -/
+theorem omitted_parameter_counts_as_its_default_witness :
+    let params : List Param := [⟨"tag", some (.lit (.str "default"))⟩, ⟨"level", some (.lit (.int 1))⟩]
+    let explicit : Ctx := [(.name "tag", .str "custom"), (.name "level", .int 7), (.pos 0, .str "custom"), (.pos 1, .int 7)]
+    let dflt : Ctx := [(.name "tag", .str "default"), (.name "level", .int 1)]
+    sameParams [(.name "flow_id", .str "watcher"), (.name "activated", .bool true)] explicit params 0 = .ok false ∧
+    sameParams [(.name "flow_id", .str "watcher"), (.name "activated", .bool true)] dflt params 0 = .ok true ∧
+    sameParams [(.name "level", .int 1), (.name "flow_id", .str "watcher")] dflt params 0 = .ok true ∧
+    sameParams [(.pos 0, .str "default"), (.name "flow_id", .str "watcher")] dflt params 0 = .ok true ∧
+    sameParams [(.pos 0, .str "default"), (.name "flow_id", .str "watcher")] explicit params 0 = .ok false := by
+  simp [sameParams, paramMatches, lookup, has, argKey, reservedNames, pyEq, Val.scalarEq, eval]
+
+/-- observed behaviour, mirrored (finite fact, by evaluation): a parameter WITHOUT default that the
+    call omits never matches — `flow f $a`, `activate f` twice gives two instances holding None —
+    and Python's `==` decides "agree": an activation started with `1` serves `activate f(True)`. -/
+theorem omitted_without_default_never_matches_witness :
+    sameParams [(.name "flow_id", .str "f")] [(.name "a", .none)] [⟨"a", none⟩] 0 = .ok false ∧
+    sameParams [(.name "a", .none), (.name "flow_id", .str "f")] [(.name "a", .none)] [⟨"a", none⟩] 0 = .ok true ∧
+    sameParams [(.pos 0, .bool true)] [(.name "a", .int 1), (.pos 0, .int 1)] [⟨"a", none⟩] 0 = .ok true ∧
+    sameParams [(.pos 0, .dict [("j", .int 2), ("k", .int 1)])] [(.name "a", .dict [("k", .int 1), ("j", .int 2)])] [⟨"a", none⟩] 0 = .ok true := by
+  simp [sameParams, paramMatches, lookup, has, argKey, reservedNames, pyEq, pyEqKvs, Val.scalarEq]
+
+/-- **The lookup over the running instances** (any list of instances, each holding values `vss a`
+    for the parameters — true of everything `create_flow_instance` makes): it never raises; the
+    instance it returns is a reference instance at that position whose every parameter agrees with
+    the call; and when it returns None, no reference instance agrees in all parameters. -/
+theorem activation_lookup_exact (params : List Param) (ev : Ctx) (k : Nat) (h : CallShape params ev k)
+    (l : List ActInst) (vss : ActInst → Nat → Val)
+    (hl : ∀ a ∈ l, ∀ i (hi : i < params.length), lookup (argKey params[i].name) a.arguments = some (vss a i)) :
+    ∃ r, refActivated params ev l 0 = .ok r ∧
+      (∀ j, r = some j → ∃ a, l[j]? = some a ∧ isReference a = true ∧
+          ∀ i (hi : i < params.length), Agrees ev k i params[i] (vss a i)) ∧
+      (r = none → ∀ a ∈ l, isReference a = true →
+          ¬ ∀ i (hi : i < params.length), Agrees ev k i params[i] (vss a i)) := by
+  have spec : ∀ a ∈ l, ∃ b, sameParams ev a.arguments params 0 = .ok b ∧
+      (b = true ↔ ∀ i (hi : i < params.length), Agrees ev k i params[i] (vss a i)) := by
+    intro a ha
+    obtain ⟨b, hb, hiff⟩ := sameParams_spec ev a.arguments k params 0 (vss a) (hl a ha)
+      (fun i hi hik => by
+        rw [Nat.zero_add] at hik ⊢
+        exact ⟨h.pos i hik, h.noclash i hi hik⟩) h.nopos
+    refine ⟨b, hb, ?_⟩
+    rw [hiff]
+    constructor <;> intro hh i hi <;> simpa using hh i hi
+  obtain ⟨r, hr⟩ := refActivated_total params ev l 0 (fun a ha p hp => by
+    obtain ⟨i, hi, rfl⟩ := List.getElem_of_mem hp
+    rw [hl a ha i hi]; rfl)
+  refine ⟨r, hr, ?_, ?_⟩
+  · intro j hj
+    subst hj
+    obtain ⟨_, a, ha, href, hs⟩ := refActivated_some params ev l 0 j hr
+    refine ⟨a, by simpa using ha, href, ?_⟩
+    obtain ⟨b, hb, hiff⟩ := spec a (List.mem_of_getElem? (by simpa using ha))
+    rw [hs] at hb
+    injection hb with hb
+    exact hiff.1 hb.symm
+  · intro hn a ha href hall
+    subst hn
+    have hs := refActivated_none params ev l 0 hr a ha href
+    obtain ⟨b, hb, hiff⟩ := spec a ha
+    rw [hs] at hb
+    injection hb with hb
+    have := hiff.2 hall
+    rw [← hb] at this
+    cases this
+
+/-- **Every `activate` call gets an instance that runs with the call's own values** (the StartFlow
+    branch of `_process_internal_events_without_default_matchers`, any state): for a well-formed
+    `activate f(..)` issued by a live flow other than `f`, whatever instances of `f` exist, the event
+    is never ignored and never fails; EITHER it is served by a running reference instance every
+    parameter of which is Python-equal to the value the statement gives THIS call (positional | named |
+    declared default | None, evaluated in the caller), OR a new instance is created whose parameters
+    are exactly those values (`bind_spec_call`). -/
+theorem activate_call_runs_with_its_own_values (params rets : List Param) (ua : Ctx) (k : Nat) (flow : String)
+    (n caller : Nat) (h : WellFormedCall params rets ua k)
+    (hnoclash : ∀ i (hi : i < params.length), i < k → lookup (argKey params[i].name) ua = none)
+    (l : List ActInst) (vss : ActInst → Nat → Val)
+    (hl : ∀ a ∈ l, ∀ i (hi : i < params.length), lookup (argKey params[i].name) a.arguments = some (vss a i))
+    (src : Source) (hlive : src.done = false) (hother : (flow == src.flowId) = false) :
+    ∃ d, startDecision flow params (startArgs ua .activate flow n caller) (some l) src = .ok d ∧
+      ((∃ j a, d = .reuse j ∧ l[j]? = some a ∧ isReference a = true ∧
+          ∀ i (hi : i < params.length), pyEq (vss a i) (specVal ua k i params[i]) = true) ∨
+       (d = .create none ∧
+        ∃ f0 f, createFlowInstance flow params rets (startArgs ua .activate flow n caller) = .ok f0 ∧
+          startFlow false (startArgs ua .activate flow n caller) f0 = .ok f ∧
+          ∀ i (hi : i < params.length), lookup (.name params[i].name) f.context = some (specVal ua k i params[i]))) := by
+  have hshape : CallShape params (startArgs ua .activate flow n caller) k :=
+    callShape_startArgs params ua k .activate flow n caller ⟨h.kle, h.pos, h.nopos, hnoclash⟩
+  obtain ⟨r, hr, hsome, _⟩ := activation_lookup_exact params _ k hshape l vss hl
+  simp only [startDecision, startArgs_activated, Option.getD_some, truthy, hr, hother, hlive, Bool.false_and,
+    Bool.or_self, Bool.false_eq_true, if_false, Bool.not_false, if_true]
+  cases r with
+  | none =>
+    refine ⟨_, rfl, Or.inr ⟨rfl, ?_⟩⟩
+    exact bind_spec_call params rets ua k .activate flow n caller h
+  | some j =>
+    obtain ⟨a, ha, href, hag⟩ := hsome j rfl
+    refine ⟨_, rfl, Or.inl ⟨j, a, rfl, ha, href, fun i hi => ?_⟩⟩
+    have := (hag i hi).1
+    rwa [specVal_startArgs] at this
+
+/-- **One `activate` call in a history**: whatever instances of the flow exist (each holding a value for
+    every parameter), the StartFlow event of a well-formed `activate f(..)` from a live flow other than
+    `f` succeeds; afterwards every instance still holds a value for every parameter, every earlier
+    instance is still there with the arguments it was started with, and SOME instance runs with the
+    values the statement gives this call (`Serves`). -/
+theorem activate_step_serves (params rets : List Param) (flow : String) (src : Source) (hlive : src.done = false)
+    (hother : (flow == src.flowId) = false) (l : List ActInst) (hl : ∀ a ∈ l, HoldsAll params a.arguments)
+    (c : ActCall) (h : WellFormedCall params rets c.ua c.k)
+    (hnoclash : ∀ i (hi : i < params.length), i < c.k → lookup (argKey params[i].name) c.ua = none) :
+    ∃ l', activateStep flow params rets src l c = .ok l' ∧ (∀ a ∈ l', HoldsAll params a.arguments) ∧
+      (∀ a ∈ l, ∃ a' ∈ l', a'.arguments = a.arguments) ∧ (∃ a' ∈ l', Serves params a' c.ua c.k) := by
+  obtain ⟨d, hd, hcases⟩ := activate_call_runs_with_its_own_values params rets c.ua c.k flow c.uid c.caller h hnoclash l
+    (valOf params) (fun a ha i hi => holdsAll_valOf params a (hl a ha) i hi) src hlive hother
+  rcases hcases with ⟨j, a, rfl, ha, _, hag⟩ | ⟨rfl, _⟩
+  · refine ⟨bump j l, by simp [activateStep, activateStepEv, hd], ?_, fun a0 ha0 => bump_mem j l a0 ha0, ?_⟩
+    · intro a' ha'
+      obtain ⟨a0, h0, e⟩ := mem_bump j l a' ha'
+      rw [e]; exact hl a0 h0
+    · have ham : a ∈ l := List.mem_of_getElem? ha
+      obtain ⟨a', ha', e⟩ := bump_mem j l a ham
+      refine ⟨a', ha', serves_congr params a a' c.ua c.k e fun i hi => ?_⟩
+      exact ⟨_, holdsAll_valOf params a (hl a ham) i hi, Or.inr (hag i hi)⟩
+  · obtain ⟨f0, f, h1, h2, _, h4⟩ := bind_spec_core flow params rets _ c.k
+      (wellFormed_of_call params rets c.ua c.k .activate flow c.uid c.caller h)
+    have hargs : f.arguments = f0.arguments := startFlow_arguments _ f0 f h2
+    have hnew : ∀ i (hi : i < params.length),
+        lookup (argKey params[i].name) f0.arguments = some (specVal c.ua c.k i params[i]) := by
+      intro i hi; rw [← hargs, h4 i hi, specVal_startArgs]
+    refine ⟨l ++ [{ activated := 1, parentAlive := true, parentSameFlow := false, arguments := f0.arguments }],
+      by simp only [activateStep, activateStepEv, hd, h1], ?_, fun a0 ha0 => ⟨a0, by simp [ha0], rfl⟩, ?_⟩
+    · intro a' ha'
+      rcases List.mem_append.1 ha' with hm | hm
+      · exact hl a' hm
+      · simp only [List.mem_singleton] at hm
+        subst hm
+        intro p hp
+        obtain ⟨i, hi, rfl⟩ := List.getElem_of_mem hp
+        simp [hnew i hi]
+    · exact ⟨{ activated := 1, parentAlive := true, parentSameFlow := false, arguments := f0.arguments }, by simp,
+        fun i hi => ⟨_, hnew i hi, Or.inl rfl⟩⟩
+
+/-- **Whole histories** (any number of `activate` calls of one flow, explicit / omitted / equal /
+    different arguments in any order, any instances already running; by induction on the history):
+    every StartFlow event succeeds, and at the end, for EVERY call of the history, some instance of
+    the flow runs with the parameter values the statement gives that call — positional | named |
+    declared default | None, evaluated in the caller (exactly those values for the instance the call
+    created, Python-equal ones when the call was attached to an activation that already ran). -/
+theorem every_activate_call_has_its_instance (params rets : List Param) (flow : String) (src : Source)
+    (hlive : src.done = false) (hother : (flow == src.flowId) = false) :
+    ∀ (cs : List ActCall) (l : List ActInst), (∀ a ∈ l, HoldsAll params a.arguments) →
+    (∀ c ∈ cs, WellFormedCall params rets c.ua c.k ∧
+      ∀ i (hi : i < params.length), i < c.k → lookup (argKey params[i].name) c.ua = none) →
+    ∃ l', activateAll flow params rets src l cs = .ok l' ∧ (∀ a ∈ l, ∃ a' ∈ l', a'.arguments = a.arguments) ∧
+      ∀ c ∈ cs, ∃ a' ∈ l', Serves params a' c.ua c.k
+  | [], l, _, _ => ⟨l, rfl, fun a ha => ⟨a, ha, rfl⟩, by simp⟩
+  | c :: cs, l, hl, hcs => by
+    obtain ⟨hw, hn⟩ := hcs c (by simp)
+    obtain ⟨l1, h1, hl1, hkeep1, a1, ha1, hs1⟩ := activate_step_serves params rets flow src hlive hother l hl c hw hn
+    obtain ⟨l', h2, hkeep2, hserve⟩ := every_activate_call_has_its_instance params rets flow src hlive hother cs l1 hl1
+      (fun c' hc' => hcs c' (by simp [hc']))
+    refine ⟨l', by simp [activateAll, h1, h2], ?_, ?_⟩
+    · intro a ha
+      obtain ⟨a', ha', e⟩ := hkeep1 a ha
+      obtain ⟨a'', ha'', e'⟩ := hkeep2 a' ha'
+      exact ⟨a'', ha'', by rw [e', e]⟩
+    · intro c' hc'
+      rcases List.mem_cons.1 hc' with rfl | hm
+      · obtain ⟨a'', ha'', e⟩ := hkeep2 a1 ha1
+        exact ⟨a'', ha'', serves_congr params a1 a'' c'.ua c'.k e hs1⟩
+      · exact hserve c' hm
+
+/-- the demo history of the seeded change, by evaluation (finite fact): `flow watcher $tag="default" $level=1`,
+    `activate watcher("custom", 7)` then `activate watcher` leaves TWO instances, the second one holding
+    the declared defaults -/
+theorem explicit_then_omitted_history_witness :
+    (match activateAll "watcher" [⟨"tag", some (.lit (.str "default"))⟩, ⟨"level", some (.lit (.int 1))⟩] []
+        { flowId := "main", done := false, activated := 1 } []
+        [{ ua := [(.pos 0, .str "custom"), (.pos 1, .int 7)], k := 2, uid := 1, caller := 0 },
+         { ua := [], k := 0, uid := 2, caller := 0 }] with
+     | .ok [a, b] =>
+       lookup (.name "tag") a.arguments = some (.str "custom") ∧ lookup (.name "level") a.arguments = some (.int 7) ∧
+       lookup (.name "tag") b.arguments = some (.str "default") ∧ lookup (.name "level") b.arguments = some (.int 1)
+     | _ => False) := by
+  simp [activateAll, activateStep, activateStepEv, startDecision, refActivated, isReference, sameParams, paramMatches, startArgs, matchArgs,
+    createFlowInstance, startCtx, bindNamed, bindPos, bindRet, Bind.set, lookup, has, truthy, argKey, reservedNames,
+    Param.dfltVal, eval, pyEq, Val.scalarEq]
+
+/-- non-vacuity of the hypotheses on the running instances: the instance `create_flow_instance`
+    makes for `activate f(1)` (`flow f $a $b=2`) holds a value for both parameters -/
+example : ∃ f0, createFlowInstance "f" [⟨"a", none⟩, ⟨"b", some (.lit (.int 2))⟩] []
+      (startArgs [(.pos 0, .int 1)] .activate "f" 1 0) = .ok f0 ∧
+    lookup (argKey "a") f0.arguments = some (.int 1) ∧ lookup (argKey "b") f0.arguments = some (.int 2) := by
+  refine ⟨_, rfl, ?_, ?_⟩ <;>
+    simp [startArgs, matchArgs, Bind.set, lookup, bindNamed, bindPos, Param.dfltVal, eval, argKey, reservedNames]
 
 /-- **Return value reaches the caller**: after `return v` in the callee, the Finished event carries
     `return_value = v` (whatever the callee's parameters are called), the caller's expanded
